@@ -136,6 +136,8 @@ func main() {
 	genOtherVC()
 	genLoop()
 	genUrlObject()
+	genLoopAccess()
+	genRegistryAccess()
 }
 
 // exprString / stmtsString: canonical whitespace-free rendering of AST fragments used for shape matching.
